@@ -17,7 +17,11 @@ CHECKS = {
              "the loss of a data or tree pack; copies into repositories with another key / compression / pack size, empty or partly "
              "filled, in one or two rounds, incl. tree / data id collisions with the destination holding only one of the two. Inputs and "
              "outputs are read back as flattened trees with digests of the really dumped content; TreesTrace.tla evaluates the property "
-             "side of Trees.tla on every record (IsMerge, exact removal, identity on undamaged, kept files keep their content, copies equal).",
+             "side of Trees.tla on every record (IsMerge, exact removal, identity on undamaged, kept files keep their content, copies equal). "
+             "Copy.tla is copy.rs as a four-step algorithm (collect by walking the source, copy data, copy trees through the shared typed "
+             "indexer, save snapshots) over every source forest and every - also non-closed - destination index of three ids that may "
+             "name a tree and a data blob at once; TLC checks Complete / NoRewrite / BlobsFirst and shows that skipping known roots or an "
+             "untyped indexer breaks Complete; copies also go into destinations with a forget / prune history of their own.",
         note="Merge ordering: later mtime wins. Exclude globs restricted to forms the generator's matcher decides. Repair damage = loss of "
              "one whole pack. Duplicate names in a produced directory are reported as DuplicateName.",
         technique="TLC equivalence check of code-shaped vs property-shaped tree operations over all small trees; TLC validation of recorded real input/output trees",
